@@ -10,6 +10,8 @@ LEVEL = {
     'C01': 'exploration',
     'C02': 'fault_enumeration',
     'C14': 'fault_enumeration',
+    'C10': 'fault_enumeration',
+    'C16': 'exploration',
 }
 
 ASSUMPTIONS = [
@@ -34,6 +36,87 @@ RULES = {
 def nt_serve_and_exec(stats):
     return stats.get('served', 0) > 0 and stats.get('executed', 0) > 0 and \
         stats.get('builds', 0) > 1
+
+
+REBUILD_HEAVY = dict(
+    n_steps=(3, 7), p_mutate_step=0.15, n_muts=(1, 1), n_groups=(1, 1),
+    n_file_funcs=(1, 3), n_sub_funcs=(1, 2), n_paths=(3, 6),
+    p_q_near_output=0.85, p_version_change=0.05, p_clean_step=0.03)
+FAILURE_HEAVY = dict(
+    w_bf=34, w_sb=20, w_raise=12, w_q=30, p_catch=0.8, p_write_never=0.1,
+    p_write_unlink=0.06, p_nonjson=0.06, n_steps=(3, 6), p_mutate_step=0.2,
+    n_groups=(1, 1), n_paths=(3, 6), p_q_near_output=0.8, max_nest=4)
+
+
+FOREIGN_HEAVY = dict(
+    n_init=(3, 8), p_plant=0.5, p_mutate_step=0.45, p_clean_step=0.12,
+    n_steps=(3, 7), p_tamper=0.4, n_paths=(4, 8), p_catch=0.7,
+    cache_rels=['../cache.gz', 'cache.gz', 'cache.gz', '../cd/cache.gz'])
+VIEW_HEAVY = dict(
+    w_probe=14, w_q=30, w_bf=26, w_sb=10, w_raise=9, p_catch=0.85,
+    p_write_never=0.08, p_write_unlink=0.06, n_paths=(3, 6),
+    n_steps=(2, 5), p_mutate_step=0.3, p_q_near_output=0.8, n_groups=(1, 2),
+    max_nest=4, query_kinds=['exists', 'is_file', 'is_dir', 'list_dir',
+                             'walk', 'walk_bu', 'read_text', 'declare_read',
+                             'get_size'])
+EFFECT_HEAVY = dict(
+    n_steps=(4, 8), p_mutate_step=0.3, n_muts=(1, 1), n_groups=(1, 1),
+    n_paths=(3, 7), p_q_near_output=0.7, p_version_change=0.0,
+    p_clean_step=0.0, p_catch=0.8, w_raise=8, p_hash=0.4, p_tamper=0.2,
+    mutation_ops=['write', 'rm', 'mkdir', 'touch', 'write'])
+VERSION_HEAVY = dict(
+    p_version_change=0.7, n_steps=(3, 7), p_mutate_step=0.1,
+    p_two_variants=0.9, n_groups=(1, 1), w_bf=28, w_sb=24, w_q=30,
+    p_catch=0.8, n_paths=(3, 6), max_nest=4, p_clean_step=0.0)
+IDENTITY_HEAVY = dict(
+    args_pool='rich', w_dup=18, w_bf=24, w_sb=30, w_q=14, p_catch=0.9,
+    p_spelling=0.5, p_q_spelling=0.3, p_chdir_step=0.25, n_steps=(2, 5),
+    p_mutate_step=0.1, n_groups=(1, 1), n_paths=(3, 5), w_raise=2,
+    p_ret_val=0.3)
+DUP_HEAVY = dict(
+    w_dup=22, w_bf=26, w_sb=24, w_q=18, p_catch=0.85, n_steps=(3, 6),
+    p_mutate_step=0.15, n_groups=(1, 2), n_paths=(3, 6), w_raise=8,
+    p_two_variants=0.6, p_version_change=0.15)
+BYVALUE_HEAVY = dict(
+    w_mut=22, w_bf=22, w_sb=22, w_q=24, p_ret_val=0.6, args_pool='rich',
+    query_kinds=['list_dir', 'walk', 'walk_bu', 'exists', 'is_dir'],
+    n_steps=(3, 6), p_mutate_step=0.1, n_groups=(1, 1), n_paths=(3, 6),
+    p_catch=0.8, w_raise=3, p_q_near_output=0.8)
+CLEAN_HEAVY = dict(
+    p_clean_step=0.35, p_double_clean=0.3, n_steps=(3, 8),
+    p_mutate_step=0.3, p_plant=0.3, n_init=(0, 6), p_tamper=0.4,
+    p_catch=0.8, w_raise=8,
+    cache_rels=['../cache.gz', 'cache.gz', '../cd/cache.gz'])
+COMPARISON_HEAVY = dict(
+    p_hash=0.5, mutation_ops=['touch', 'touch', 'stealth', 'stealth',
+                              'write', 'write', 'rm'],
+    p_tick0=0.3, p_tick_back=0.1, n_steps=(3, 7), p_mutate_step=0.45,
+    n_muts=(1, 2), p_tamper=0.6, n_groups=(1, 1), n_paths=(3, 6),
+    query_kinds=['read_text', 'read_binary', 'declare_read', 'get_size',
+                 'exists'],
+    p_q_near_output=0.7, n_init=(1, 4), p_catch=0.8, w_raise=3,
+    p_version_change=0.0, p_clean_step=0.0)
+REFUSE_HEAVY = dict(
+    p_refuse_step=0.5, n_steps=(3, 7), p_mutate_step=0.15, n_init=(0, 4),
+    n_groups=(1, 1), p_clean_step=0.05,
+    cache_rels=['../cache.gz', 'cache.gz', '../cd/cache.gz'])
+PERSIST_HEAVY = dict(
+    p_ret_val=0.7, args_pool='rich', names=['a b', '\u00e9', '.h', 'c',
+                                            '-x', 'x' * 60, '\U0001f600'],
+    n_steps=(3, 6), p_mutate_step=0.1, p_clean_step=0.15, w_raise=6,
+    p_catch=0.85, p_version_change=0.2, n_groups=(1, 1), p_nonjson=0.02)
+
+
+def nt_any_build(stats):
+    return stats.get('builds', 0) > 0 and stats.get('executed', 0) > 0
+
+
+def nt_clean(stats):
+    return stats.get('cleans', 0) > 0 and stats.get('commits', 0) > 0
+
+
+def nt_refused(stats):
+    return stats.get('refused', 0) > 0
 
 
 def nt_rollback_restored(stats):
@@ -62,10 +145,162 @@ CAMPAIGNS = {
                  'mutating call index (mkdtemp/mkdir/makedirs/rename/rmdir/'
                  'remove/cache open, write, close) plus torn cache writes'},
     ],
+    'C03': [
+        {'name': 'c03-foreign', 'profile': 'C03', 'mode': 'plain',
+         'nontrivial': nt_serve_and_exec, 'weight': 2.0,
+         'params': FOREIGN_HEAVY, 'foreign_live': True,
+         'rule': 'foreign files/dirs planted inside created directories, at '
+                 'former output positions and next to the cache; commits, '
+                 'rollbacks, swaps and clean; every foreign file stat-ed at '
+                 'every statement and compared (bytes, mtime, inode) after '
+                 'every call'},
+        {'name': 'c03-crash', 'profile': 'C03', 'mode': 'crash-sweep',
+         'nontrivial': nt_rollback_restored, 'weight': 1.0, 'chunk': 6,
+         'params': FOREIGN_HEAVY, 'foreign_live': True,
+         'sweep_max': {'quick': 10, 'thorough': None},
+         'rule': 'same, with the last build crashed at every raise '
+                 'opportunity (rollback must bring overwritten foreign files '
+                 'back)'},
+    ],
+    'C04': [
+        {'name': 'c04-view', 'profile': 'C04', 'mode': 'plain',
+         'nontrivial': nt_any_build, 'weight': 2.0, 'params': VIEW_HEAVY,
+         'rule': 'query-dominated programs with probe batteries (6 query '
+                 'kinds x every path of the universe) before/inside/after '
+                 'nested build_file calls that succeed or fail in every mode; '
+                 'answers compared with the model and checked for mutual '
+                 'consistency'},
+        {'name': 'c04-generic', 'profile': 'C01', 'mode': 'plain',
+         'nontrivial': nt_serve_and_exec, 'weight': 1.0,
+         'params': FAILURE_HEAVY, 'rule': 'failure-heavy generic programs'},
+    ],
+    'C05': [
+        {'name': 'c05-effect', 'profile': 'C05', 'mode': 'plain',
+         'nontrivial': nt_serve_and_exec, 'weight': 2.0,
+         'params': EFFECT_HEAVY,
+         'rule': '4-8 steps: unchanged rebuilds and single mutations of '
+                 'observed / unobserved paths; every function entry must be '
+                 'justified by the incremental model (M2); served outputs '
+                 'keep inode and mtime'},
+        {'name': 'c05-failures', 'profile': 'C05', 'mode': 'plain',
+         'nontrivial': nt_serve_and_exec, 'weight': 1.0,
+         'params': dict(FAILURE_HEAVY, n_steps=(3, 6), p_mutate_step=0.1),
+         'rule': 'records with nested caught failures'},
+        {'name': 'c05-view', 'profile': 'C05', 'mode': 'plain',
+         'nontrivial': nt_serve_and_exec, 'weight': 1.0,
+         'params': dict(VIEW_HEAVY, n_steps=(3, 5), p_mutate_step=0.1,
+                        w_probe=6),
+         'rule': 'records dominated by listings/walks of directories that '
+                 'the record itself creates'},
+    ],
+    'C06': [
+        {'name': 'c06-versions', 'profile': 'C06', 'mode': 'plain',
+         'nontrivial': nt_serve_and_exec, 'weight': 1.0,
+         'params': VERSION_HEAVY, 'post': 'tag_versions',
+         'rule': 'call graphs of depth <= 4, version maps changing between '
+                 'builds (absent/None/scalars/nested, JSON-equal respellings '
+                 'and near misses); executed set and results compared with '
+                 'the model'},
+    ],
+    'C07': [
+        {'name': 'c07-identity', 'profile': 'C07', 'mode': 'plain',
+         'nontrivial': nt_any_build, 'weight': 1.0,
+         'params': IDENTITY_HEAVY, 'post': 'tag_all:C07',
+         'rule': 'arguments from a JSON grammar incl. python-only shapes, '
+                 'repeated calls with equal / near-miss keys in the same and '
+                 'in later builds, path spellings (bytes, PathLike, '
+                 'redundant separators, .., relative after chdir)'},
+    ],
+    'C08': [
+        {'name': 'c08-dups', 'profile': 'C08', 'mode': 'plain',
+         'nontrivial': nt_serve_and_exec, 'weight': 1.0,
+         'params': DUP_HEAVY, 'post': 'tag_all:C08',
+         'rule': 'duplicate build_file/subbuild calls at every placement '
+                 '(same level, nested, other subtree, first occurrence '
+                 'cached / rebuilt / failed) across 3-6 builds'},
+    ],
+    'C10': [
+        {'name': 'c10-contract', 'profile': 'C10', 'mode': 'plain',
+         'nontrivial': nt_any_build, 'weight': 2.0,
+         'params': dict(VIEW_HEAVY, w_probe=8, p_mutate_step=0.4,
+                        p_tamper=0.5, n_init=(0, 5)),
+         'post': 'tag_all:C10',
+         'rule': 'build_file at depth 1-3 over prior states of target and '
+                 'ancestors x failure modes; physical and virtual state '
+                 'checked right after each call and at commit'},
+        {'name': 'c10-mkdir-faults', 'profile': 'C10',
+         'mode': 'oserror-sweep', 'nontrivial': nt_rollback_restored,
+         'weight': 1.0, 'chunk': 6,
+         'sweep_max': {'quick': 12, 'thorough': None},
+         'params': dict(FAILURE_HEAVY, p_catch=0.9), 'post': 'tag_all:C10',
+         'errnos': ['ENOSPC', 'EACCES', 'ENAMETOOLONG'], 'torn': False,
+         'rule': 'mkdir/rename/rmdir failing at each level'},
+    ],
+    'C11': [
+        {'name': 'c11-byvalue', 'profile': 'C11', 'mode': 'plain',
+         'nontrivial': nt_serve_and_exec, 'weight': 1.0,
+         'params': BYVALUE_HEAVY, 'post': 'tag_all:C11',
+         'rule': 'in-place mutation of arguments inside the callee, of '
+                 'values returned by build_file/subbuild (fresh and served) '
+                 'and of list_dir/walk results, followed by more builds'},
+    ],
+    'C12': [
+        {'name': 'c12-clean', 'profile': 'C12', 'mode': 'plain',
+         'nontrivial': nt_clean, 'weight': 1.0, 'params': CLEAN_HEAVY,
+         'post': 'tag_after_clean',
+         'rule': 'clean at random positions (after commits, rollbacks, '
+                 'tampering, another clean, without cache) followed by '
+                 'builds; tree compared with the model, foreign files with '
+                 'the pre-state'},
+    ],
+    'C13': [
+        {'name': 'c13-comparison', 'profile': 'C13', 'mode': 'plain',
+         'nontrivial': nt_serve_and_exec, 'weight': 1.0,
+         'params': COMPARISON_HEAVY, 'post': 'tag_all:C13',
+         'rule': 'touch / stealth (content changed, size and mtime kept) / '
+                 'write / stalled and backward clock, for inputs, outputs '
+                 'and outputs read back, HASH and METADATA mixed'},
+    ],
+    'C15': [
+        {'name': 'c15-refusals', 'profile': 'C15', 'mode': 'plain',
+         'nontrivial': nt_refused, 'weight': 1.0, 'params': REFUSE_HEAVY,
+         'rule': '25 refusal classes (cache truncation / bit flips / wrong '
+                 'gzip / wrong JSON / other software / newer version / '
+                 'directory at cache path / wrong build name / wrong-typed '
+                 'arguments of build_versioned and clean) on top of '
+                 'histories with outputs; whole sandbox compared bit for bit'},
+    ],
+    'C16': [
+        {'name': 'c16-persist', 'profile': 'C16', 'mode': 'plain',
+         'nontrivial': nt_serve_and_exec, 'weight': 2.0,
+         'params': PERSIST_HEAVY, 'post': 'tag_all:C16',
+         'rule': 'return values from the JSON grammar and output names with '
+                 'spaces / non-ASCII / leading dots / long components at '
+                 'every nesting position; served values compared with exact '
+                 'types'},
+        {'name': 'c16-write-faults', 'profile': 'C16',
+         'mode': 'oserror-sweep', 'nontrivial': nt_rollback_restored,
+         'weight': 1.0, 'chunk': 6, 'only_calls': ['gzopen_w', 'gzwrite',
+                                                   'gzclose'],
+         'sweep_max': {'quick': 12, 'thorough': None},
+         'params': PERSIST_HEAVY, 'post': 'tag_all:C16',
+         'rule': 'cache write failing / torn at open, write, close with and '
+                 'without a previous cache'},
+    ],
     'C01': [
         {'name': 'c01-generic', 'profile': 'C01', 'mode': 'plain',
          'nontrivial': nt_serve_and_exec, 'weight': 1.0,
          'rule': 'generic programs and histories'},
+        {'name': 'c01-rebuilds', 'profile': 'C01', 'mode': 'plain',
+         'nontrivial': nt_serve_and_exec, 'weight': 1.0,
+         'params': REBUILD_HEAVY,
+         'rule': 'few functions, 3-7 builds with rare single mutations, '
+                 'queries aimed at outputs and their ancestors'},
+        {'name': 'c01-failures', 'profile': 'C01', 'mode': 'plain',
+         'nontrivial': nt_serve_and_exec, 'weight': 1.0,
+         'params': FAILURE_HEAVY,
+         'rule': 'deep nesting of build_file/subbuild with caught and '
+                 'uncaught failures at every level'},
     ],
 }
 
@@ -102,11 +337,44 @@ def run_any(sc):
     raise ValueError('unknown scenario mode %r' % (mode,))
 
 
+def apply_post(sc, post):
+    from .util import jeq
+    if post.startswith('tag_all:'):
+        tag = post.split(':')[1]
+        for st in sc['steps']:
+            if st['op'] in ('build', 'clean'):
+                st['tags'] = [tag]
+    elif post == 'tag_versions':
+        prev = None
+        for st in sc['steps']:
+            if st['op'] == 'build':
+                v = st.get('versions', {})
+                if prev is not None and not jeq(
+                        {k: x for k, x in v.items() if x is not None},
+                        {k: x for k, x in prev.items() if x is not None}):
+                    st['tags'] = ['C06']
+                prev = v
+    elif post == 'tag_after_clean':
+        after = False
+        for st in sc['steps']:
+            if st['op'] == 'clean':
+                st['tags'] = ['C12']
+                after = True
+            elif st['op'] == 'build' and after:
+                st['tags'] = ['C12']
+                after = False
+    return sc
+
+
 def run_case(camp, seed, tier='quick'):
     sc = gen.generate(camp['profile'], seed, camp.get('params'))
     post = camp.get('post')
     if post is not None:
-        sc = post(sc, seed)
+        sc = apply_post(sc, post)
+    if camp.get('foreign_live'):
+        sc['config']['foreign_live'] = True
+    if camp.get('only_calls'):
+        sc['only_calls'] = camp['only_calls']
     out = {'runs': 0, 'stats': {}, 'violations': [], 'invalid': 0,
            'errors': [], 'verdicts': [], 'nontrivial': False,
            'shape': None, 'log_digest': None, 'sample': None}
